@@ -1,5 +1,7 @@
 import Proofs.Lemmas.Solver
 import Proofs.Lemmas.SolverOutcome
+import Proofs.Lemmas.SolverSound
+import Proofs.Lemmas.SolverTable
 /-
 C02 — Per-period solve: status, iteration count, result flag and convergence agree.
 
@@ -299,5 +301,234 @@ theorem solveT_stamp_history_irrelevant (u : σ) (st st' : List Status) (it it' 
 example : (solveT exI { maxIter := 10 } 5 2 ⟨0, [.unsolved, .error, .failed, .solved, .skipped], [-1, 3, 7, 2, 1]⟩)
     = (⟨3, [.unsolved, .error, .solved, .solved, .skipped], [-1, 3, 4, 2, 1]⟩, .ret true) := by
   decide
+
+/-! ### Soundness of the record: what must have happened for a given outcome (the converse direction) -/
+
+/-- **The agreement table.**  Whatever the model, the hooks, the options, the span and the period, one `solve_t` call
+    is the application of an outcome whose stamp and result are one of the rows of `Agree`: '.' only with `True` and a
+    count in `max(1, min_iter) … max_iter`; 'F' only with `False` (or NonConvergenceError exactly when
+    `failures='raise'`) and count `max(max_iter, 0)`; 'S' only with `False` under `errors='skip'`; 'E' only with a
+    SolutionError under `errors='raise'`; no stamp with ValueError / IndexError / a hook's SolutionError / the invalid
+    `errors` ValueError — and nothing else. -/
+theorem solveT_agreement :
+    ∃ oc : Outcome σ, solveT I o n t w = applyOutcome n t w oc ∧ Agree o oc.2.1 oc.2.2 :=
+  ⟨outcomeOf I o n t w.user, solveT_eq_outcome I o n t w, outcome_agrees I o t n w.user⟩
+
+/-- **Soundness of `True` / status '.'.**  Whenever `solve_t` returns `True`, some pass `k` with
+    `max(1, min_iter) ≤ k ≤ max_iter` did not raise, was judged (held values and new values all finite), passed the
+    convergence test `close`, and was followed by a post-hook that did not raise; the world is the post-hook's state
+    stamped '.' / `k`. -/
+theorem solveT_true_sound (w' : World σ) (h : solveT I o n t w = (w', .ret true)) :
+    ∃ (k : Nat) (u : σ), 1 ≤ k ∧ (k : Int) ≤ o.maxIter ∧ SolvedAt I o t k u ∧
+      w' = stamp (withUser w u) n t .solved k := by
+  obtain ⟨u2, _, hf⟩ := solveT_ret I o n t w w' true h
+  obtain ⟨u, s, k, hl, hw, hb, _⟩ := finish_ret o n t w _ w' true hf
+  have hs : s = .solved := by simpa using hb.symm
+  subst hs
+  obtain ⟨a, b, c⟩ := loop_solved_sound I o t _ _ _ _ _ _ hl
+  refine ⟨k, u, a, ?_, c, hw⟩
+  omega
+
+/-- **Soundness of `False`.**  Whenever `solve_t` returns `False`, the recorded status is 'F' with
+    `iterations[t] = max(max_iter, 0)` and `failures` is not `'raise'`, or it is 'S' under `errors='skip'` with a
+    non-finite check value left in place.  (No other status, and no other count, can accompany `False`.) -/
+theorem solveT_false_sound (w' : World σ) (h : solveT I o n t w = (w', .ret false)) :
+    ∃ (k : Nat) (u : σ),
+      (w' = stamp (withUser w u) n t .failed k ∧ k = o.maxIter.toNat ∧ o.failRaise = false) ∨
+      (w' = stamp (withUser w u) n t .skipped k ∧ o.errors = .skip ∧ I.allFinite (I.check u t) = false) := by
+  obtain ⟨u2, _, hf⟩ := solveT_ret I o n t w w' false h
+  obtain ⟨u, s, k, hl, hw, hb, hn⟩ := finish_ret o n t w _ w' false hf
+  have hs : s ≠ .solved := by simpa using hb.symm
+  refine ⟨k, u, ?_⟩
+  rcases loop_done_status I o t _ _ _ _ _ _ _ hl with rfl | rfl | rfl
+  · exact absurd rfl hs
+  · left
+    refine ⟨hw, ?_, by simpa using hn⟩
+    rcases loop_failed_sound I o t _ _ _ _ _ _ hl with a | a
+    · omega
+    · omega
+  · right
+    obtain ⟨a, _, c⟩ := loop_skipped_sound I o t _ _ _ _ _ _ hl
+    exact ⟨hw, a, c⟩
+
+
+/-! ### The shipped convergence test is a conjunction over all check variables -/
+
+/-- `closeBy near cur prev` holds iff **every** position (up to the shorter length) is `near` — all, not any. -/
+theorem zip_all_iff {α : Type} (near : α → α → Bool) (l1 l2 : List α) :
+    ((l1.zip l2).all fun (c, p) => near c p) = true ↔
+      ∀ (i : Nat) (h : i < l1.length) (h' : i < l2.length), near l1[i] l2[i] = true := by
+  induction l1 generalizing l2 with
+  | nil => simp
+  | cons a l1 ih =>
+    cases l2 with
+    | nil => simp
+    | cons b l2 =>
+      simp only [List.zip_cons_cons, List.all_cons, Bool.and_eq_true, ih, List.length_cons]
+      constructor
+      · rintro ⟨h0, hs⟩ i h h'
+        cases i with
+        | zero => simpa using h0
+        | succ i => simpa using hs i (by omega) (by omega)
+      · intro h
+        exact ⟨by simpa using h 0 (by omega) (by omega),
+               fun i h1 h2 => by
+                 have := h (i + 1) (by omega) (by omega)
+                 simpa only [List.getElem_cons_succ] using this⟩
+
+theorem closeBy_iff {α : Type} (near : α → α → Bool) (cur prev : Array α) :
+    closeBy near cur prev = true ↔
+      ∀ (i : Nat) (h : i < cur.size) (h' : i < prev.size), near cur[i] prev[i] = true := by
+  unfold closeBy
+  rw [zip_all_iff]
+  constructor
+  · intro h i h1 h2
+    have := h i (by simpa using h1) (by simpa using h2)
+    simpa only [Array.getElem_toList] using this
+  · intro h i h1 h2
+    have := h i (by simpa using h1) (by simpa using h2)
+    simpa only [Array.getElem_toList] using this
+
+/-- One check variable that is not `near` its previous value blocks convergence, whatever the others do. -/
+theorem closeBy_blocked {α : Type} (near : α → α → Bool) (cur prev : Array α)
+    (i : Nat) (h : i < cur.size) (h' : i < prev.size) (hfar : near cur[i] prev[i] = false) :
+    closeBy near cur prev = false := by
+  cases hc : closeBy near cur prev with
+  | false => rfl
+  | true => have := (closeBy_iff near cur prev).mp hc i h h'; simp [hfar] at this
+
+/-- A model with no check variables passes the test at once (`np.all` of an empty array). -/
+theorem closeBy_empty {α : Type} (near : α → α → Bool) (prev : Array α) : closeBy near #[] prev = true := by
+  rw [closeBy_iff]; intro i h; simp at h
+
+/-- A wider notion of `near` (a larger `tol`) accepts whatever a narrower one accepts. -/
+theorem closeBy_mono {α : Type} (near near' : α → α → Bool) (hmono : ∀ a b, near a b = true → near' a b = true)
+    (cur prev : Array α) (h : closeBy near cur prev = true) : closeBy near' cur prev = true := by
+  rw [closeBy_iff] at h ⊢
+  exact fun i h1 h2 => hmono _ _ (h i h1 h2)
+
+/-- **`True` means every check variable stopped moving.**  For a model whose convergence test is the shipped one,
+    `solve_t` returning `True` implies a pass `k` (with `max(1, min_iter) ≤ k ≤ max_iter`) whose every check value
+    is `near` the value held before the pass. -/
+theorem converged_all_near {σ α : Type} (I : Interp σ (Array α)) (near : α → α → Bool) (hI : I.close = closeBy near)
+    (o : Opts) (n : Nat) (t : Int) (w w' : World σ) (h : solveT I o n t w = (w', .ret true)) :
+    ∃ (k : Nat) (u : σ) (prev : Array α), 1 ≤ k ∧ (k : Int) ≤ o.maxIter ∧ o.minIter ≤ k ∧
+      ∀ (i : Nat) (h1 : i < (I.check (I.eval o u t k).1 t).size) (h2 : i < prev.size),
+        near (I.check (I.eval o u t k).1 t)[i] prev[i] = true := by
+  obtain ⟨k, u'', h1, h2, ⟨u, prev, _, _, _, hm, hc, _⟩, _⟩ := solveT_true_sound I o n t w w' h
+  rw [hI] at hc
+  exact ⟨k, u, prev, h1, h2, by omega, (closeBy_iff near _ _).mp hc⟩
+
+/-! ### Non-vacuity (review): every hypothesis-carrying theorem instantiated on `exI` (5 periods, real passes) -/
+
+private def exW : World Nat := ⟨0, List.replicate 5 .unsolved, List.replicate 5 (-1)⟩
+private theorem exAcc10 : Accepted exI { maxIter := 10 } 5 2 := by unfold Accepted Feasible; decide
+private theorem swapLt {P : Nat → Prop} (n : Nat) (h : ∀ i, i < n → 0 < i → P i) : ∀ i, 0 < i → i < n → P i :=
+  fun i a b => h i b a
+private theorem swapLe {P : Nat → Prop} (n : Nat) (h : ∀ i, i ≤ n → 0 < i → P i) : ∀ i, 0 < i → i ≤ n → P i :=
+  fun i a b => h i b a
+private theorem exAcc3 : Accepted exI { maxIter := 3 } 5 (-1) := by unfold Accepted Feasible; decide
+
+/-- `solveT_min_gt_max` at `min_iter = 10 > max_iter = 5`. -/
+example : solveT exI { minIter := 10, maxIter := 5 } 5 2 exW = (exW, .valueError) :=
+  solveT_min_gt_max exI _ 5 2 exW (by decide)
+
+/-- `solveT_offset_oob`: period 4 (spelt `-1`) of 5 with `offset = +1`, and period 0 with `offset = -1`. -/
+example : solveT exI { offset := 1 } 5 (-1) exW = (exW, .indexError) ∧
+    solveT exI { offset := -1 } 5 0 exW = (exW, .indexError) :=
+  ⟨solveT_offset_oob exI _ 5 (-1) exW (by decide) (by decide) (by decide),
+   solveT_offset_oob exI _ 5 0 exW (by decide) (by decide) (by decide)⟩
+
+/-- `solveT_offset_copy` / `solveT_offset_zero` at period 2 of 5 (`offset = -1`, resp. `0`). -/
+example : solveT exI { offset := -1 } 5 2 exW = solveCore exI { offset := -1 } 5 2 exW (exI.copyOffset 0 2 (-1)) :=
+  solveT_offset_copy exI _ 5 2 exW (by decide) (by unfold Feasible; decide) (by decide) (by decide) (by decide)
+example : solveT exI {} 5 2 exW = solveCore exI {} 5 2 exW 0 :=
+  solveT_offset_zero exI _ 5 2 exW (by decide) (by unfold Feasible; decide) rfl
+
+/-- `pyIndex_offset` at a negative spelling: `t = -2` of 5 with offset `+1` is position 4 = index `-1`. -/
+example : pyIndex 5 (-2 + 1) = some 4 := pyIndex_offset 5 (-2) 1 (by decide) (by decide) (by decide) (by decide)
+
+/-- `solveT_converges` with `k0 = 4` (three moving passes first), `solveT_fails` with `max_iter = 3`. -/
+example : solveT exI { maxIter := 10 } 5 2 exW = (stamp (withUser exW 3) 5 2 .solved ((4 : Nat) : Int), .ret true) :=
+  solveT_converges exI { maxIter := 10 } 5 2 exW exAcc10 (by decide) 4 (by decide) (by decide) (by decide) (by decide)
+    (swapLt 4 (by unfold Good; decide)) (by unfold Good; decide) (by decide)
+example : solveT exI { maxIter := 3 } 5 (-1) exW =
+    (stamp (withUser exW 3) 5 (-1) .failed ((3 : Nat) : Int), .nonConvergence) :=
+  solveT_fails exI { maxIter := 3 } 5 (-1) exW exAcc3 (by decide) (by decide) (by decide)
+    (swapLe 3 (by unfold Good; decide))
+
+/-- `failed_count_is_max_iter`, `good_iff` (pass 4 of the run above is good, pass 3 is not). -/
+example : (((3 : Int).toNat : Nat) : Int) = 3 := failed_count_is_max_iter { maxIter := 3 } (by decide)
+example : Good exI { maxIter := 10 } 2 0 0 4 ∧ ¬ Good exI { maxIter := 10 } 2 0 0 3 :=
+  ⟨(good_iff exI _ 2 0 0 4 (by decide)).mpr (by decide),
+   fun h => absurd ((good_iff exI _ 2 0 0 3 (by decide)).mp h) (by decide)⟩
+
+/-- `converging_calls` / `failing_calls`: pre-hook, passes 1…4, post-hook; resp. pre-hook, passes 1…3. -/
+example : (solveT (logged exI) { maxIter := 10 } 5 2 ⟨(0, []), exW.status, exW.iters⟩).1.user.2 =
+    [.before, .eval 1, .eval 2, .eval 3, .eval 4, .after 4] :=
+  converging_calls exI { maxIter := 10 } 5 2 [] 0 _ _ exAcc10 (by decide) 4 (by decide) (by decide) (by decide)
+    (by decide) (swapLt 4 (by unfold Good; decide)) (by unfold Good; decide) (by decide)
+example : (solveT (logged exI) { maxIter := 3 } 5 (-1) ⟨(0, []), exW.status, exW.iters⟩).1.user.2 =
+    [.before, .eval 1, .eval 2, .eval 3] :=
+  failing_calls exI { maxIter := 3 } 5 (-1) [] 0 _ _ exAcc3 (by decide) (by decide) (by decide)
+    (swapLe 3 (by unfold Good; decide))
+
+/-- `solvePeriod_keyError` at a missing label and at a label resolving to a non-integer position. -/
+example : solvePeriod exI {} 5 .missing exW = (exW, none) ∧ solvePeriod exI {} 5 .other exW = (exW, none) :=
+  ⟨solvePeriod_keyError exI _ 5 exW .missing (fun _ h => nomatch h),
+   solvePeriod_keyError exI _ 5 exW .other (fun _ h => nomatch h)⟩
+
+/-- `solveT_stamp_history_irrelevant` at period 2 of 5, a fresh record against a used one: the second
+    disjunct holds (both record '.', 4). -/
+example : ∃ (s : Status) (k : Int),
+    (solveT exI { maxIter := 10 } 5 2 exW).1.status[2]? = some s ∧
+    (solveT exI { maxIter := 10 } 5 2 ⟨0, [.unsolved, .error, .failed, .solved, .skipped], [-1, 3, 7, 2, 1]⟩).1.status[2]?
+      = some s ∧
+    (solveT exI { maxIter := 10 } 5 2 exW).1.iters[2]? = some k ∧
+    (solveT exI { maxIter := 10 } 5 2 ⟨0, [.unsolved, .error, .failed, .solved, .skipped], [-1, 3, 7, 2, 1]⟩).1.iters[2]?
+      = some k :=
+  (solveT_stamp_history_irrelevant exI { maxIter := 10 } 5 2 0 exW.status
+      [.unsolved, .error, .failed, .solved, .skipped] exW.iters [-1, 3, 7, 2, 1] 2 (by decide)
+      (by decide) (by decide) (by decide) (by decide)).resolve_left (by decide)
+
+/-- `solveT_true_sound` on the converging run (pass 4 is the accepted one) and `solveT_false_sound` on the
+    `max_iter = 0` run (status 'F', count 0). -/
+example : ∃ (k : Nat) (u : Nat), 1 ≤ k ∧ (k : Int) ≤ 10 ∧ SolvedAt exI { maxIter := 10 } 2 k u ∧
+    (⟨3, [.unsolved, .unsolved, .solved, .unsolved, .unsolved], [-1, -1, 4, -1, -1]⟩ : World Nat)
+      = stamp (withUser exW u) 5 2 .solved k :=
+  solveT_true_sound exI { maxIter := 10 } 5 2 exW _ (by decide)
+example : ∃ (k : Nat) (u : Nat),
+    ((⟨0, [.unsolved, .unsolved, .failed, .unsolved, .unsolved], [-1, -1, 0, -1, -1]⟩ : World Nat)
+        = stamp (withUser exW u) 5 2 .failed k ∧ k = (0 : Int).toNat ∧ false = false) ∨
+    ((⟨0, [.unsolved, .unsolved, .failed, .unsolved, .unsolved], [-1, -1, 0, -1, -1]⟩ : World Nat)
+        = stamp (withUser exW u) 5 2 .skipped k ∧ ErrMode.raise = .skip ∧ exI.allFinite (exI.check u 2) = false) :=
+  solveT_false_sound exI { maxIter := 0, failRaise := false } 5 2 exW _ (by decide)
+
+/-- Two check variables moving at different speeds: `u` and `u / 2` while `u` climbs to 4. -/
+def exA : Interp Nat (Array Nat) where
+  lags := 0
+  leads := 0
+  check u _ := #[u, u / 2]
+  allFinite := allFiniteBy fun _ => true
+  close := closeBy fun a b => a == b
+  zeroNF v := v
+  copyOffset u _ _ := u
+  before _ u _ := (u, false)
+  eval _ u _ _ := (min (u + 1) 4, false)
+  after _ u _ _ := (u, false)
+
+/-- `converged_all_near` on `exA` (converges at pass 5, when both `u` and `u / 2` have stopped). -/
+example : ∃ (k : Nat) (u : Nat) (prev : Array Nat), 1 ≤ k ∧ (k : Int) ≤ 10 ∧ (0 : Int) ≤ k ∧
+    ∀ (i : Nat) (h1 : i < (exA.check (exA.eval { maxIter := 10 } u 2 k).1 2).size) (h2 : i < prev.size),
+      ((exA.check (exA.eval { maxIter := 10 } u 2 k).1 2)[i] == prev[i]) = true :=
+  converged_all_near exA _ rfl { maxIter := 10 } 5 2 exW
+    ⟨4, [.unsolved, .unsolved, .solved, .unsolved, .unsolved], [-1, -1, 5, -1, -1]⟩ (by decide)
+
+/-- `closeBy_blocked`: the second variable still moves (pass 4 → 2 from 1) although the first has stopped moving…
+    and `closeBy_mono`: equality implies "within 1". -/
+example : closeBy (fun a b => a == b) #[4, 2] #[4, 1] = false :=
+  closeBy_blocked _ #[4, 2] #[4, 1] 1 (by decide) (by decide) (by decide)
+example : closeBy (fun a b : Nat => decide (a ≤ b + 1 ∧ b ≤ a + 1)) #[4, 2] #[4, 2] = true :=
+  closeBy_mono (fun a b => a == b) _ (fun a b h => by simp at h; subst h; simp) #[4, 2] #[4, 2] (by decide)
 
 end Fsic.C02
